@@ -165,6 +165,17 @@ func runC06(r *Report, rng *rand.Rand, thorough bool) {
 				for _, cor := range corruptions(c) {
 					add(fw, c, cor[0], false, mkReq(c, cor[1], true))
 				}
+				// a query key sent several times: every occurrence counts (an exploded array whose FIRST element is malformed;
+				// a single-valued parameter sent twice, the first time malformed)
+				if c.Loc == "query" && c.Kind == "styled" && (c.effStyle() == "form") {
+					q := url.QueryEscape(c.Name)
+					if c.Shape == "arr:int" && c.effExplode() {
+						add(fw, c, "first-of-repeated-malformed", false, map[string]any{"method": "GET", "target": "/" + c.Op + "?" + q + "=abc&" + q + "=2"})
+					}
+					if c.Shape == "int" {
+						add(fw, c, "single-value-sent-twice", false, map[string]any{"method": "GET", "target": "/" + c.Op + "?" + q + "=abc&" + q + "=5"})
+					}
+				}
 				// repeated single-valued header
 				if c.Loc == "header" && c.Kind == "styled" && !strings.HasPrefix(c.Shape, "arr:") && c.Shape != "obj" {
 					v := genValue(rng, c)
@@ -384,5 +395,5 @@ func runC06(r *Report, rng *rand.Rand, thorough bool) {
 	}
 	r.Exhaustive = thorough
 	runC06Combine(r, rng, thorough)
-	r.Rule = "function level: CombineOperationParameters on random path-level / operation-level parameter lists vs the model; every operation of the parameter family (one per cell of location x style x explode x shape x required x schema/JSON content) x {parameter present and well-formed in the OAS table's serialisation (must be accepted; arrays of two or more elements, objects), required parameter missing, optional parameter missing (must be accepted), wrong type, integer overflow, bad date / date-time / uuid, wrong array element, malformed JSON content (truncated, wrong member type, a complete value followed by more text), wrong label/matrix prefix, duplicated single-valued header, header present with an empty value (non-string types)} x 7 frameworks x {default error path, configured error handler}; a POST operation with required pass-through / JSON / styled and optional query parameters next to a form-encoded body whose fields carry the parameters' names (required parameter only in the body: rejected; complete query with same-named body fields: accepted with the query's values; optional only in the body: absent); oracle: zero handler calls and status 400 / error handler invoked for corrupted requests, exactly one handler call for well-formed ones; non-trivial = a corruption or a missing required parameter"
+	r.Rule = "function level: CombineOperationParameters on random path-level / operation-level parameter lists vs the model; every operation of the parameter family (one per cell of location x style x explode x shape x required x schema/JSON content) x {parameter present and well-formed in the OAS table's serialisation (must be accepted; arrays of two or more elements, objects), required parameter missing, optional parameter missing (must be accepted), wrong type, integer overflow, bad date / date-time / uuid, wrong array element, malformed JSON content (truncated, wrong member type, a complete value followed by more text), wrong label/matrix prefix, duplicated single-valued header, a query key sent several times with a malformed first occurrence (exploded array; single-valued parameter), header present with an empty value (non-string types)} x 7 frameworks x {default error path, configured error handler}; a POST operation with required pass-through / JSON / styled and optional query parameters next to a form-encoded body whose fields carry the parameters' names (required parameter only in the body: rejected; complete query with same-named body fields: accepted with the query's values; optional only in the body: absent); oracle: zero handler calls and status 400 / error handler invoked for corrupted requests, exactly one handler call for well-formed ones; non-trivial = a corruption or a missing required parameter"
 }
